@@ -9,7 +9,7 @@ def main():
     rc_all = 0
     lf = open(os.path.join(LEAN, "lakefile.toml")).read()
     exes = re.findall(r'\[\[lean_exe\]\]\s*name\s*=\s*"([^"]+)"', lf)
-    mods = ["Fv.Props." + os.path.basename(p)[:-5] for p in sorted(glob.glob(os.path.join(LEAN, "Fv", "Props", "C*.lean")))]
+    mods = ["Fv.Props." + os.path.basename(p)[:-5] for p in sorted(glob.glob(os.path.join(LEAN, "Fv", "Props", "*.lean")))]
     for tgt in mods + exes:
         rc, out, err = sh(["lake", "build", tgt], cwd=LEAN, timeout=7200)
         print("lake build %-24s rc=%d (%.0fs)" % (tgt, rc, time.time() - t0)); sys.stdout.flush()
